@@ -571,7 +571,8 @@ TEMPLATES = [
     {"id": "W1", "kind": "wextend", "ops": {"s": A("sum", "c:x")}, "part": ["g"], "order": [], "rev": [], "slots": ["g", "x", "s", "z"]},
     {"id": "W2", "kind": "wextend", "ops": {"c": A("cumsum", "c:x")}, "part": ["g"], "order": ["y"], "rev": [], "slots": ["g", "x", "y", "c", "z"]},
     {"id": "W3", "kind": "wextend", "ops": {"c": A("cumsum", "c:x")}, "part": [], "order": ["y"], "rev": ["y"], "slots": ["x", "y", "c", "z"]},
-    {"id": "W4", "kind": "wextend", "ops": {"n": A("_size"), "r": A("_row_number")}, "part": ["g"], "order": ["y"], "rev": [], "slots": ["g", "y", "n", "r", "z"]},
+    {"id": "W4", "kind": "wextend", "ops": {"n": A("_size")}, "part": ["g"], "order": [], "rev": [], "slots": ["g", "n", "z"]},
+    {"id": "W9", "kind": "wextend", "ops": {"r": A("_row_number"), "m": A("cummax", "c:x")}, "part": ["g"], "order": ["y"], "rev": [], "slots": ["g", "y", "r", "m", "z"]},
     # (the output of W5 is a constant column: undoing the sort by it is invisible, so n is not called _data_algebra_orig_index here)
     {"id": "W5", "kind": "wextend", "ops": {"n": A("_size")}, "part": 1, "order": [], "rev": [], "slots": ["n", "z", "x"], "skip": [["n", "_data_algebra_orig_index"]]},
     {"id": "W6", "kind": "wextend", "ops": {"c": A("cumsum", "v:2"), "d": A("cumsum", "c:x")}, "part": ["g"], "order": ["y"], "rev": [], "slots": ["g", "x", "y", "c", "d", "z"]},
@@ -703,9 +704,12 @@ def scratch_prepare(chk, entries, found):
             return allnames + extra + ["plain_name"]
         return by_kind[t["kind"]] + extra + ["plain_name"]
     terms, meta = [], []
+    dead = [t["id"] for t in TEMPLATES if bases[t["id"]][0] is None]
+    if len(dead) * 3 > len(TEMPLATES):           # (a single template the builder now rejects only costs samples)
+        chk.corr_break(f"scratch templates {dead} no longer evaluate on Pandas: {bases[dead[0]][1]}", {"templates": dead})
     for t in TEMPLATES:
         if bases[t["id"]][0] is None:
-            chk.corr_break(f"scratch template {t['id']} no longer evaluates on Pandas: {bases[t['id']][1]}", {"template": t["id"]})
+            chk.dist("scratch_template_skipped:" + t["id"])
             continue
         for slot in t["slots"]:
             for new in names_for(t):
